@@ -139,7 +139,9 @@ void prop_gen(Ctx &c) {
 			for (auto &r : e.rules) {
 				bool scale = r.extra.find("SCALE=") != std::string::npos;
 				if (c.excl("scale_until") && scale && r.has_until) kc = "scale_until";
-				if (c.excl("tzid_subdaily_gap") && !e.tzid.empty() && r.freq >= rref::HOURLY) kc = "tzid_subdaily_gap";
+				if (c.excl("tzid_subdaily_gap") && !e.tzid.empty() && (r.freq >= rref::HOURLY || r.has_time_parts())) kc = "tzid_subdaily_gap";
+				if (c.excl("tzid_until") && !e.tzid.empty() && r.has_until) kc = "tzid_until";
+				if (c.excl("scale_shift") && scale && r.extra.find("SHIFT=") != std::string::npos) kc = "scale_shift";
 				size_t sp = r.extra.find("SHIFT=");
 				if (c.excl("monthly_large_shift") && sp != std::string::npos && r.freq == rref::MONTHLY) {
 					int d = 0, b = 0; const char *q = r.extra.c_str() + sp + 6; char *on;
